@@ -60,6 +60,12 @@ class C03(Prop):
             # the same durations written with unit suffixes (period 1 s, default unit s)
             case['mode'] = rng.choice(['end-only', 'begin-only', 'both', 'same-suffix'])
             case['sseed'] = rng.randrange(1 << 30)
+        elif rng.random() < 0.12:
+            from rtverif import pastmodel
+            from rtverif.props.c06 import SEMS
+            if not pastmodel.past_over_future(f):       # (keeps this class away from the open finding)
+                case['ia'] = [rng.choice(SEMS[1:]), dict((k, rng.choice(['input', 'output'])) for k in names)]
+                case['online_kind'] = 'dt'          # (the online-only class takes no semantics argument)
         elif modular and lang.depth(f) >= 2:
             # the same formula written with named sub-specifications (every occurrence of a chosen sub-formula
             # becomes a reference to one name)
@@ -93,13 +99,19 @@ class C03(Prop):
         v.info['class:' + ('future-free' if h == 0 and not lang.has_future(f) else
                            'future-only' if not lang.has_past(f) else 'mixed')] = 1
         v.info['h:%d' % min(h, 8)] = 1
+        hook, sdx = None, {}
+        if case.get('ia'):
+            from rtverif.props.c06 import hook_discrete
+            hook = hook_discrete(case['ia'][0], case['ia'][1])
+            sdx = {'semantics': case['ia'][0], 'io': case['ia'][1]}
+            v.info['class:interface-aware'] = 1
         try:
-            exp = [ref.evaluate(f, data, i + 1)[i - h] if i >= h else None for i in range(n)]
+            exp = [ref.evaluate(f, data, i + 1, pred_hook=hook)[i - h] if i >= h else None for i in range(n)]
         except ref.Undefined:
             v.skip = 'reference undefined (domain error)'
             return v
         kind = case.get('online_kind', 'dt')
-        sd = {'text': text, 'vars': names}
+        sd = dict({'text': text, 'vars': names}, **sdx)
         if case.get('modular'):
             from rtverif.props.c09 import modular_sd
             sd = modular_sd(case['modular'], names)
@@ -130,7 +142,7 @@ class C03(Prop):
             if not ref.same(on[i], exp[i], rel):
                 # literal comparator: the real offline monitor on the prefix
                 try:
-                    off = drive.values(drive.dt_offline(text, names, data, i + 1))[i - h]
+                    off = drive.values(drive.dt_offline(text, names, data, i + 1, sd=sdx))[i - h]
                 except Exception as e:
                     off = 'raised %s' % type(e).__name__
                 if isinstance(off, float) and ref.same(on[i], off, rel):
@@ -138,11 +150,11 @@ class C03(Prop):
                 v.bad('delayed-value', '%s (h=%d) data=%s: update #%d returned %r, offline robustness of the '
                       'original at sample %d on the %d-sample prefix is %r (reference %r)' % (
                           text, h, data, i, on[i], i - h, i + 1, off, exp[i]),
-                      findings.c03_attribution(f, data, n, i, on[i], rel))
+                      None if case.get('ia') else findings.c03_attribution(f, data, n, i, on[i], rel))
                 return v
         if not lang.has_future(f):
             try:
-                plain = drive.dt_online(text, names, data, n, kind=kind)
+                plain = drive.dt_online(text, names, data, n, kind=kind, sd=sdx)
             except Exception as e:
                 return v
             for i in range(n):
